@@ -141,14 +141,22 @@ def run(ck):
         rc1, mout, _ = run_lines(mexe, "\n".join(lines) + "\n", timeout=600)
         mout = [l.strip() for l in mout]
         k = 0
+        sp_timeouts = []
         def do_sp(i):
-            return i, run_one(cexe, sp_reqs[i], 60)
+            if len(sp_timeouts) >= 2:
+                return i, (None, "skipped")
+            r_ = run_one(cexe, sp_reqs[i], 60)
+            if r_[0] is None and r_[1] == "timeout":
+                sp_timeouts.append(i)
+            return i, r_
         with concurrent.futures.ThreadPoolExecutor(max_workers=4) as ex:
             answers = dict(ex.map(do_sp, range(n_sp)))
         for i, rq in enumerate(sp_reqs):
             exp = mout[k:k + len(rq["threads"])]
             k += len(rq["threads"])
             res, rcx = answers[i]
+            if rcx == "skipped":
+                continue
             if res is None:
                 viol.append(("the process running %d symbol-program threads %s" % (len(rq["threads"]), "timed out (deadlock?)" if rcx == "timeout" else "died rc=%s" % rcx),
                              {"request": rq, "how": "echo '<request>' | .cache/target/lang/debug/concurrency_run"}, False))
@@ -234,14 +242,18 @@ def run(ck):
         if rp_req.get("op") == "jobs":
             reqs = [{"K": len(rp_req["jobs"]), "identical": False, "names": [j.get("tag") for j in rp_req["jobs"]], "macro_only": False, "req": rp_req}]
 
+    confirmed_deadlocks = []
     def do_job(i):
         t = time.time()
+        if len(confirmed_deadlocks) >= 2:
+            return i, None, "skipped", 0.0          # two confirmed deadlocks are reported; do not spend 210 s on each further request
         res, rcx = run_one(cexe, reqs[i]["req"], 60)
         if res is None and rcx == "timeout":
             # the machine is shared: a timeout under load is confirmed alone with a longer limit before it counts as a deadlock
             res2, rcx2 = run_one(cexe, reqs[i]["req"], 150)
             if res2 is not None:
                 return i, res2, "slow-under-load", time.time() - t
+            confirmed_deadlocks.append(i)
             return i, None, "timeout", time.time() - t
         return i, res, rcx, time.time() - t
     t0 = time.time()
@@ -255,6 +267,8 @@ def run(ck):
         q = reqs[i]
         if rcx == "slow-under-load":
             bump("requests_repeated_after_timeout_under_load")
+        if rcx == "skipped":
+            bump("requests_skipped_after_two_confirmed_deadlocks"); continue
         if res is None:
             viol.append(("%d concurrent compile+run jobs: the process %s" % (q["K"], "did not finish within 60 s and again within 150 s alone (deadlock)" if rcx == "timeout" else "died (rc=%s)" % rcx),
                          {"K": q["K"], "seed": q["req"]["seed"], "sources": [{"name": j["tag"], "src": j["src"], "path": j["path"]} for j in q["req"]["jobs"]],
